@@ -79,14 +79,24 @@ static void head_(void *node_pp, void *depth_p, void *rk_p) {
   __CPROVER_assume(nv_count(&GV0) < 256 || nv_child(&GV0, kbyte(IN_K, IN_depth + G_L)) != 0);   /* a full N256 holds every key byte (count == number present) */
 #endif
   G_old = adt_tag(G_obj, KIND);
+#ifdef CASE
+  /* case split (the four cases are exhaustive: !pm | pm&child | pm&!child&!full | pm&!child&full); each is discharged as its own query */
+  { _Bool pm_ = prefix_matches(GV0.prefix, IN_depth, IN_K); uint64_t ch_ = nv_child(&GV0, kbyte(IN_K, IN_depth + G_L)); _Bool full_ = nv_count(&GV0) == n_capacity(KIND);
+    __CPROVER_assume(CASE == 1 ? !pm_ : CASE == 2 ? (pm_ && ch_ != 0) : CASE == 3 ? (pm_ && ch_ == 0 && !full_) : (pm_ && ch_ == 0 && full_)); }
+#endif
 #endif
   *G_slot = G_old;
+#if KIND >= 1
+  { uint64_t qc = nv_child(&GV0, kbyte(IN_Q, IN_depth + G_L)), kc = nv_child(&GV0, kbyte(IN_K, IN_depth + G_L));     /* children are opaque subtrees (handles never issued to a materialised node) */
+    __CPROVER_assume((qc == 0 || (qc >> 3) >= ADT_MAX) && (kc == 0 || (kc >> 3) >= ADT_MAX)); }
+#endif
   G_before_Q = G_in_scope ? sub_ans(G_old, IN_depth, IN_Q, 1) : NONE;
   G_before_K = sub_ans(G_old, IN_depth, IN_K, 1);
   stats_load(&S0, G_db);
 #ifdef VERIF_CFG_STATS
   __CPROVER_assume(S0.mem < (1ULL << 60) && S0.splits <= S0.grow[0] && S0.grow[0] < (1ULL << 60) && S0.cnt[KIND] >= 1 && S0.mem >= (KIND == 0 ? LEAF_ALLOC_SIZE(LEAF_VLEN(G_obj)) : n_size(KIND)));  /* statistics invariant instances */
   for (unsigned i = 0; i < 5; i++) __CPROVER_assume(S0.cnt[i] < (1ULL << 60));
+  for (unsigned i = 0; i < 4; i++) __CPROVER_assume(S0.grow[i] < (1ULL << 60) && S0.grow[i] >= S0.cnt[i + 1] && S0.shrink[i] <= S0.grow[i] && S0.grow[i] - S0.shrink[i] >= S0.cnt[i + 1]);   /* counter invariants of the index: every inner node alive was grown into and not yet shrunk away */
   for (unsigned i = 0; i < 4; i++) __CPROVER_assume(S0.grow[i] < (1ULL << 60));
 #endif
 }
@@ -100,7 +110,9 @@ static void back_(void *node_p, uint32_t depth, uint64_t rk) {
   __CPROVER_assert(__CPROVER_same_object(node_p, G_obj), "... and that slot lies inside this node");
   __CPROVER_assert(depth == IN_depth + G_L + 1 && rk == (depth >= 8 ? 0 : IN_K >> (8 * depth)), "loop invariant preserved (step): depth' = depth + prefix length + 1, remaining key shifted accordingly");
   __CPROVER_assert(lg_allocs == 0 && lg_frees == 0 && !verif_exc_pending, "descent allocates and releases nothing");
+#if !defined(CASE) || CASE == 2
   VERIF_CANARY("descent reachable");
+#endif
 #else
   __CPROVER_assert(0, "a leaf is never descended into");
 #endif
@@ -139,7 +151,9 @@ void harness(void) {
     stats_check(&S0, &S1, 0, Z5, Z4, Z4, 0);
     __CPROVER_assert(lg_frees == lg_allocs, "C08: every block the failed step had allocated was released again (the failed allocation itself yields no block)");
     for (unsigned i = 0; i < LEDGER_MAX; i++) if (i < lg_frees) __CPROVER_assert(lg_allocated(lg_free_p[i]), "C08: ... and only such blocks were released");
+#if !defined(CASE) || CASE != 2
     VERIF_CANARY("exceptional exit reachable");
+#endif
     return;
   }
   /* ------------------------------------------------------------------ empty tree */
@@ -151,7 +165,9 @@ void harness(void) {
     if (a.has && W < IN_vlen) __CPROVER_assert(((uint8_t *)(uintptr_t)a.p)[W] == G_val[W], "C01: ... and the given value bytes");
     int d5[5] = {1, 0, 0, 0, 0}; stats_check(&S0, &S1, (int64_t)leafsz, d5, Z4, Z4, 0);
     __CPROVER_assert(lg_allocs == 1 && lg_alloc_bytes == leafsz && lg_frees == 0, "C10: exactly one block of the leaf's size is taken from the allocator");
+#if !defined(CASE) || CASE == 1
     VERIF_CANARY("empty-tree insert reachable");
+#endif
     return;
   }
   __CPROVER_assert(G_head_seen, "non-empty tree: the descent loop is entered");
@@ -193,13 +209,17 @@ void harness(void) {
                      "C10: the old node keeps its children; its prefix is cut so that new prefix + key byte + rest == old prefix");
     d5[1] = 1; g4[0] = 1; stats_check(&S0, &S1, (int64_t)(leafsz + n_size(1)), d5, g4, Z4, 1);
     __CPROVER_assert(lg_allocs == 2 && lg_alloc_bytes == leafsz + n_size(1) && lg_frees == 0, "C10: one leaf and one N4 taken from the allocator, nothing released");
+#if !defined(CASE) || CASE == 1
     VERIF_CANARY("prefix split reachable");
+#endif
   } else if (nv_count(&GV0) < n_capacity(KIND)) {
     struct nview v1; nv_load(&v1, G_obj, KIND);
     __CPROVER_assert(nw == G_old && nv_count(&v1) == nv_count(&GV0) + 1 && v1.prefix == GV0.prefix, "add to non-full node: same node, one more child, same prefix");
     stats_check(&S0, &S1, (int64_t)leafsz, d5, Z4, Z4, 0);
     __CPROVER_assert(lg_allocs == 1 && lg_alloc_bytes == leafsz && lg_frees == 0, "C10: exactly the leaf is taken from the allocator");
+#if !defined(CASE) || CASE == 3
     VERIF_CANARY("add to non-full node reachable");
+#endif
   }
 #if KIND <= 3
   else {
@@ -209,9 +229,13 @@ void harness(void) {
     d5[KIND] = -1; d5[KIND + 1] = 1; g4[KIND] = 1;
     stats_check(&S0, &S1, (int64_t)(leafsz + n_size(KIND + 1)) - (int64_t)n_size(KIND), d5, g4, Z4, 0);
     __CPROVER_assert(lg_allocs == 2 && lg_alloc_bytes == leafsz + n_size(KIND + 1) && lg_frees == 1 && lg_freed(G_obj), "C10 growth: leaf and larger node allocated, the replaced node released exactly once");
+#if !defined(CASE) || CASE == 4
     VERIF_CANARY("growth reachable");
+#endif
   }
 #endif
 #endif
+#if !defined(CASE) || CASE != 2
   VERIF_CANARY("insert returns");
+#endif
 }
